@@ -529,12 +529,25 @@ impl<S: Storage> Builder<S> {
             .register(id, span.clone(), output_row_counter.clone());
 
         let (tx, rx) = async_broadcast::broadcast(16);
+        // If the task panics, tell the consumers instead of silently closing the channel,
+        // which they would take for the end of the stream.
+        struct PanicGuard(async_broadcast::Sender<Result<DataChunk>>);
+        impl Drop for PanicGuard {
+            fn drop(&mut self) {
+                if std::thread::panicking() {
+                    self.0.set_overflow(true);
+                    let _ = self.0.try_broadcast(Err(ExecutorError::aborted()));
+                }
+            }
+        }
+        let guard = PanicGuard(tx.clone());
         #[cfg(feature = "verif")]
         let (verif_id, verif_name) = (usize::from(id), name.clone());
         let handle = tokio::task::Builder::default()
             .name(&format!("{id}.{name}"))
             .spawn(
                 async move {
+                    let _guard = guard;
                     #[cfg(feature = "verif")]
                     {
                         stream = verif_fault_stream(verif_id, verif_name, stream);
